@@ -1,6 +1,6 @@
 (* Extraction of the executable model and specification to OCaml.  Only ExtrOcamlBasic's directives
    are in effect; nat, positive, N, Z stay the extracted Coq datatypes. *)
-From WV Require Import Abs FenSpec Table Eval.
+From WV Require Import Abs FenSpec Table Eval SanSpec Search.
 Require Extraction.
 Require ExtrOcamlBasic.
 Extraction Language OCaml.
@@ -23,6 +23,8 @@ Separate Extraction
   Rules.legal_moves Rules.apply Rules.perft Rules.king_attacked Rules.attacked Rules.legal_pos
   Rules.checkmate Rules.stalemate Rules.attacks_from Rules.pseudo_legal Rules.legal
   Abs.abs Abs.absm FenSpec.write
+  Search.analyze_iterative Search.analyze Search.quiesce Search.iter_moves
+  SanSpec.spellings SanSpec.long_form SanSpec.illegal_pseudo_moves
   Eval.evaluate Eval.estimate Eval.heuristic Eval.mate_in_ply Eval.is_terminal
   Table.acc_find Table.acc_insert Table.acc_entries Table.acc_max_entries Table.empty_access Table.acc_run Table.spec_find Table.spec_step
   BinNat.N.of_nat BinNat.N.to_nat.
